@@ -6,6 +6,8 @@ package symgo
 import (
 	"go/token"
 	"go/types"
+
+	"golang.org/x/tools/go/ssa"
 )
 
 type syncState struct {
@@ -88,6 +90,22 @@ func registerSyncStubs() {
 		return fr.i.conc.syncOp(fr, "WaitGroup.Add", a[0].(*value), []value{int(-1)}), true
 	}
 
+	// sync.Pool: never retains anything
+	externals["(*sync.Pool).Put"] = noop
+	externals["(*sync.Pool).Get"] = func(fr *frame, a []value) (value, bool) {
+		p := a[0].(*value)
+		st := (*p).(structure)
+		newFn := st[len(st)-1] // the New field is the last one
+		switch f := newFn.(type) {
+		case *ssa.Function:
+			if f == nil {
+				return iface{}, true
+			}
+		case nil:
+			return iface{}, true
+		}
+		return call(fr.i, fr, token.NoPos, newFn, nil), true
+	}
 	// atomic.Value: contents kept in a side table keyed by the Value's address
 	externals["(*sync/atomic.Value).Load"] = func(fr *frame, a []value) (value, bool) {
 		v, ok := fr.i.sync().avals[a[0].(*value)]
